@@ -362,6 +362,32 @@ def run(case):
                         fails.append(f"step {stepno}: writing into the data of the result of {name} changed object {k} ({type(obj).__name__})")
                         break
                 steps_model.append({"write": len(pool) - 1})
+            # editing a derived collection in place (pop / del / update of *its own* members) must not reach the
+            # collection it was derived from either
+            if isinstance(out, NDCollection) and len(out) >= 1 and rng.random() < 0.7:
+                how = rng.choice(["pop", "del", "update"]) if len(out) >= 2 else "update"
+                try:
+                    key0 = list(out.keys())[-1]
+                    if how == "pop":
+                        out.pop(key0)
+                    elif how == "del":
+                        del out[key0]
+                    else:
+                        member = out[key0]
+                        out.update([("zz", member)], None if out.aligned_axes is None else (tuple(out.aligned_axes[key0]),))
+                    tags.append(f"edit-derived-collection={how}")
+                except Exception:
+                    tags.append("edit-derived-collection=refused")
+                snaps[-1] = snapshot(out)
+                for k, (obj, old) in enumerate(zip(pool[:-1], snaps[:-1])):
+                    try:
+                        changed = snapshot(obj) != old
+                    except Exception as e:
+                        changed = True
+                    if changed:
+                        fails.append(f"step {stepno}: editing the collection made by {name} in place ({how}) changed object {k} ({type(obj).__name__})")
+                        break
+                steps_model.append({"write": len(pool) - 1})
         else:
             pool.append(src)          # keep indices aligned with the model: a query 'derives' nothing new
             pool_kind.append("query")
